@@ -306,3 +306,23 @@ Proof.
   - destruct o; cbn [trun tstep tpc tout fail last]; split; try reflexivity;
       destruct s; reflexivity.
 Qed.
+
+(* The clock arithmetic of the model is over Z; the code computes [now - lastFailTime] in int64.
+   For clock readings in the int64 range with [last <= now] (lastFailTime is an earlier reading of
+   the same clock, or 0) the subtraction cannot wrap, so the int64 result IS the model's. *)
+Definition wrap64 (z : Z) : Z := (z + 2^63) mod 2^64 - 2^63.
+
+Lemma interval_does_not_wrap : forall now lastf,
+  0 <= lastf <= now -> now < 2^63 -> wrap64 (now - lastf) = now - lastf.
+Proof.
+  intros now lastf H Hn. unfold wrap64.
+  rewrite Z.mod_small; lia.
+Qed.
+
+(* the alternative formulation [now < last + recover] (an absolute deadline) is NOT safe in int64 *)
+Lemma deadline_form_wraps : exists now lastf rec,
+  0 <= lastf <= now /\ now < 2^63 /\ 0 <= rec < 2^63 /\
+  (now - lastf <? rec) = true /\ (now <? wrap64 (lastf + rec)) = false.
+Proof.
+  exists 1000, 1000, (2^63 - 1). vm_compute. repeat split; congruence.
+Qed.
